@@ -272,6 +272,7 @@ type collDef struct {
 	hugeBound    bool     // the loop must be left by break (only body shape "break")
 	setup        string   // extra statements after `c := lit`
 	rangeExpr    string   // expression in the range header (default: c)
+	inserts      bool     // body shape "insert": every visit of an original entry inserts new entries (which may or may not be visited)
 }
 
 var collDefs = []collDef{
@@ -292,6 +293,9 @@ var collDefs = []collDef{
 	{kind: "array", kt: "int", vt: "int", lit: `[3]int{7, 8, 9}`, n: 3, setup: "mk := func() [3]int { return c }", rangeExpr: "mk()"},
 	{kind: "map", kt: "int", vt: "int", lit: `map[int]int{5: 6}`, n: 1, muts: []string{"c[5] = 60", "delete(c, 5)"}},
 	{kind: "map", kt: "int", vt: "int", lit: `map[int]int{1: 10, 2: 20, 3: 30}`, n: 3, unordered: true},
+	// pre-sized map: insertions during the loop do not grow it, so new entries land in buckets the iteration has not
+	// reached yet; every ORIGINAL entry must still be visited exactly once (only those are observable in the body)
+	{kind: "map", kt: "int", vt: "int", lit: `func() map[int]int { m := make(map[int]int, 256); for i := 0; i < 8; i++ { m[i] = 10 * i }; return m }()`, n: 8, unordered: true, inserts: true},
 	{kind: "map", kt: "string", vt: "any", lit: `map[string]any{"k": nil}`, n: 1},
 	{kind: "map", kt: "any", vt: "error", lit: `map[any]error{nil: nil}`, n: 1},
 	{kind: "map", kt: "int", vt: "int", lit: `map[int]int(nil)`, n: 0},
@@ -308,7 +312,7 @@ var collDefs = []collDef{
 	{kind: "int", kt: "uint", vt: "", lit: `^uint(0)`, n: 3, hugeBound: true},
 }
 
-var rangeBodies = []string{"yield", "trivial", "closure", "break", "continue", "nested", "mutate"}
+var rangeBodies = []string{"yield", "trivial", "closure", "break", "continue", "nested", "mutate", "insert"}
 
 // rangeTable: kind x variable form x token x body shape
 func rangeTable() []*Program {
@@ -330,6 +334,9 @@ func rangeTable() []*Program {
 					if knownExclusions()["array-range-live-not-copied"] && cd.kind == "array" && form >= 3 && bodyKind == "mutate" && (n+1)%2 == 0 {
 						n++ // keep the numbering (and so the Vl/plain alternation) stable
 						continue // known finding: the live array is ranged, not a copy
+					}
+					if (bodyKind == "insert") != cd.inserts || (cd.inserts && form == 0) {
+						continue
 					}
 					if cd.hugeBound && bodyKind != "break" {
 						continue
@@ -416,6 +423,12 @@ func rangeProgram(name string, cd collDef, form int, op, bodyKind string, salt i
 	case "nested":
 		inner := &Stmt{K: "range", Name: "j", Op: ":=", Coll: &Coll{Kind: "int", Lit: "2", KT: "int"}, Body: []*Stmt{evS(2, v("j")), yS(bin("+", v("j"), sum))}}
 		lb = []*Stmt{log, inc, inner}
+	case "insert":
+		// inserted entries have keys and values >= 1000 and are not observable
+		ins := &Stmt{K: "rawsimple", Raw: "for j := 0; j < 8; j++ { c[1000+n*8+j] = 1000 }"}
+		lb = []*Stmt{{K: "if", E: cmp("<", sum, lit(1000)), Body: []*Stmt{log, inc, ins, yS(sum)}}}
+		p.tag("mutation")
+		p.tag("map-insert-during-range")
 	case "mutate":
 		m := cd.muts[salt%len(cd.muts)]
 		lb = []*Stmt{log, inc, {K: "rawsimple", Raw: m}, yS(sum)}
